@@ -147,13 +147,13 @@ def field_narrowings(ctx: Ctx, c: ClassInfo, f: FieldInfo) -> List[Tuple[str, Tu
         val = Sym('value')
         outs = ctx.ev.run(vfi, {params[0]: self_t, params[2]: val}, self_cls=c)
         for o in outs:
-            for call in method_calls(list(o.effects), '_type_check'):
+            for call in method_calls(list(o.effects) + list(o.trace), '_type_check'):
                 if call_recv(call) == self_t and call.args and call.args[0] == val and len(call.args) >= 2:
                     td = _type_desc(ctx, call.args[1], self_t)
                     force = call.kw('force') == Const(True)
                     if td:
                         out.append((f'validator {vfi.name}' + (' force' if force else ''), td, force, vfi.where))
-            for call in method_calls(list(o.effects), 'check_arguments'):
+            for call in method_calls(list(o.effects) + list(o.trace), 'check_arguments'):
                 if call.args and call.args[0] == val:
                     out.append((f'validator {vfi.name} check_arguments', ('overload',), False, vfi.where))
             if any(isinstance(x, Call) and call_name(x) == 'can_be_bool' for t in outcome_terms(o) for x in walk(t)):
